@@ -557,7 +557,7 @@ func (x *exec) havocLike(st *State, v Val) Val {
 		return x.freshVal(st, "hv", c.T)
 	case *SliceV:
 		n := &SliceV{x.ctx.fresh("hv.sarr", SInt), x.ctx.fresh("hv.soff", SInt), x.ctx.fresh("hv.slen", SInt), x.ctx.fresh("hv.scap", SInt)}
-		st.assume(And(Le(Zero, n.Arr), Le(Zero, n.Off), Le(Zero, n.Len), Le(n.Len, n.Cap)))
+		st.assume(And(Le(Zero, n.Arr), Le(n.Arr, st.W), Le(Zero, n.Off), Le(Zero, n.Len), Le(n.Len, n.Cap)))
 		return n
 	case *IfaceV:
 		n := &IfaceV{x.ctx.fresh("hv.itag", SInt), x.ctx.fresh("hv.ipay", SInt)}
